@@ -116,7 +116,7 @@ func uninterp[T any](name string, args ...any) T { var z T; return z }
 //@ func newExec
 //@ props C05 C07 C19
 //@ ensures fresh: r0 != nil && fresh(r0)
-//@ ensures init: r0.path == path && r0.innermostArraySize == -1 && r0.lastGeneratedObjectID == 1
+//@ ensures init: r0.path == path && r0.innermostArraySize == -1 && r0.lastGeneratedObjectID == 1 && r0.baseObject.addr == 0 && r0.baseObject.id == 0
 //@ ensures [C07] mode: r0.ignoreStructuralErrors == path.IsLax()
 
 //@ func (*Executor).returnVerboseError
@@ -228,7 +228,6 @@ func uninterp[T any](name string, args ...any) T { var z T; return z }
 //@ requires node != nil
 //@ modifies exec.lastGeneratedObjectID
 //@ ensures [C05 C14] class: r1 != nil ==> errIs(r1, ErrExecution) || errIs(r1, ErrInvalid)
-//@ ensures [C08] silent: !old(exec.verbose) ==> !errIs(r1, ErrVerbose)
 //@ ensures [C14] ok-range: r1 == nil ==> -2147483648 <= r0 && r0 <= 2147483647
 //@ ensures [C14 C09] operand: ncalls(exec.executeItem) == 1 && callarg[ast.Node](exec.executeItem, "node") == node && callarg[any](exec.executeItem, "value") == value
 //@ ensures [C14 C08] failure-reported: callret[resultStatus](exec.executeItem, 0) == statusFailed ==> r1 != nil
@@ -321,7 +320,6 @@ func uninterp[T any](name string, args ...any) T { var z T; return z }
 //@ props C01 C07 C15
 //@ loop 1 invariant [C07 C20 C05] no-pending: pendingErr() == nil && !pendingFailed() && err == nil && res != statusFailed
 //@ loop 1 invariant status: res == statusOK || res == statusNotFound
-//@ loop 1 invariant [C09 C16] id-grows: exec.lastGeneratedObjectID >= old(exec.lastGeneratedObjectID)
 //@ loop 1 invariant [C09 C07] ise-restore: implies(deferActive("ignoreStructuralErrors"), deferObj[*Executor]("ignoreStructuralErrors") == exec && deferVal[bool]("ignoreStructuralErrors") == old(exec.ignoreStructuralErrors)) && implies(!deferActive("ignoreStructuralErrors"), exec.ignoreStructuralErrors == old(exec.ignoreStructuralErrors))
 //@ loop 1 invariant [C15] visit-each: node != nil && level >= first ==> ncalls(exec.executeItemOptUnwrapTarget) == loopEntry(ncalls(exec.executeItemOptUnwrapTarget)) + rangeindex + 1
 //@ loop 1 invariant [C15] descend-each: level < last ==> ncalls(exec.executeAnyItem) == loopEntry(ncalls(exec.executeAnyItem)) + rangeindex + 1
@@ -583,10 +581,14 @@ func isUnknownSpec(a predOutcome) predOutcome {
 //@ func (*Executor).tempSetIgnoreStructuralErrors
 //@ props C07 C09
 //@ inline
+//@ modifies exec.ignoreStructuralErrors
+//@ ensures [C07] set: exec.ignoreStructuralErrors == val
 
 //@ func (*Executor).setTempBaseObject
 //@ props C09 C16
 //@ inline
+//@ modifies exec.baseObject
+//@ ensures [C16] set: exec.baseObject.id == id
 
 // ---------------------------------------------------------------------------
 // math.go, util.go: arithmetic
@@ -658,7 +660,6 @@ func isUnknownSpec(a predOutcome) predOutcome {
 //@ requires node.Operator() == ast.UnaryPlus || node.Operator() == ast.UnaryMinus
 //@ loop 1 invariant [C20 C05] no-pending: pendingErr() == nil && !pendingFailed()
 //@ loop 1 invariant status: res == statusOK || res == statusNotFound
-//@ loop 1 invariant [C09] id-grows: exec.lastGeneratedObjectID >= old(exec.lastGeneratedObjectID)
 //@ loop 1 invariant [C13] every-item: !(found == nil && node.Next() == nil) ==> ncalls(exec.executeNextItem) == loopEntry(ncalls(exec.executeNextItem)) + rangeindex + 1
 //@ atcall executeItemOptUnwrapResult assert [C13] operand: arg_value == value && arg_unwrap && arg_node == node.Operand()
 //@ atcall executeNextItem assert [C13] numeric-only: arg_found == found && (is[int64](v) || is[float64](v) || is[json.Number](v))
@@ -691,3 +692,145 @@ func isUnknownSpec(a predOutcome) predOutcome {
 //@ ensures [C12] bool-order: is[bool](left) && is[bool](right) && as[*ast.BinaryNode](node).Operator() == ast.BinaryLess ==> r1 == nil && r0 == ite(!as[bool](left) && as[bool](right), predTrue, predFalse)
 //@ ensures [C08 C12] never-verbose: !errIs(r1, ErrVerbose)
 //@ ensures [C05] never-invalid-for-items: !errIs(r1, ErrInvalid) || !(left == nil || is[bool](left) || is[int64](left) || is[float64](left) || is[json.Number](left) || is[string](left) || is[[]any](left) || is[map[string]any](left) || is[*types.Date](left) || is[*types.Time](left) || is[*types.TimeTZ](left) || is[*types.Timestamp](left) || is[*types.TimestampTZ](left))
+
+// ---------------------------------------------------------------------------
+// method.go: item methods
+
+//@ func (*Executor).execMethodNode
+//@ props C01 C16
+//@ ensures [C01] single-method: ncalls(exec.executeNumberMethod) + ncalls(exec.executeNumericItemMethod) + ncalls(exec.execMethodType) + ncalls(exec.execMethodSize) + ncalls(exec.execMethodDouble) + ncalls(exec.execMethodInteger) + ncalls(exec.execMethodBigInt) + ncalls(exec.execMethodString) + ncalls(exec.execMethodBoolean) + ncalls(exec.executeKeyValueMethod) == 1
+//@ ensures [C16] type: node.Name() == ast.MethodType ==> ncalls(exec.execMethodType) == 1 && callarg[any](exec.execMethodType, "value") == value && r0 == callret[resultStatus](exec.execMethodType, 0) && r1 == callret[error](exec.execMethodType, 1)
+//@ ensures [C16] size: node.Name() == ast.MethodSize ==> ncalls(exec.execMethodSize) == 1 && callarg[any](exec.execMethodSize, "value") == value
+//@ ensures [C16] double: node.Name() == ast.MethodDouble ==> ncalls(exec.execMethodDouble) == 1 && callarg[any](exec.execMethodDouble, "value") == value && callarg[bool](exec.execMethodDouble, "unwrap") == unwrap
+//@ ensures [C16] integer: node.Name() == ast.MethodInteger ==> ncalls(exec.execMethodInteger) == 1 && callarg[any](exec.execMethodInteger, "value") == value
+//@ ensures [C16] bigint: node.Name() == ast.MethodBigInt ==> ncalls(exec.execMethodBigInt) == 1 && callarg[any](exec.execMethodBigInt, "value") == value
+//@ ensures [C16] string: node.Name() == ast.MethodString ==> ncalls(exec.execMethodString) == 1 && callarg[any](exec.execMethodString, "value") == value
+//@ ensures [C16] boolean: node.Name() == ast.MethodBoolean ==> ncalls(exec.execMethodBoolean) == 1 && callarg[any](exec.execMethodBoolean, "value") == value
+//@ ensures [C16] keyvalue: node.Name() == ast.MethodKeyValue ==> ncalls(exec.executeKeyValueMethod) == 1 && callarg[any](exec.executeKeyValueMethod, "value") == value
+//@ ensures [C16] number: node.Name() == ast.MethodNumber ==> ncalls(exec.executeNumberMethod) == 1 && callarg[any](exec.executeNumberMethod, "value") == value
+//@ ensures [C16] abs-floor-ceiling: node.Name() == ast.MethodAbs || node.Name() == ast.MethodFloor || node.Name() == ast.MethodCeiling ==> ncalls(exec.executeNumericItemMethod) == 1 && callarg[any](exec.executeNumericItemMethod, "value") == value
+//@ ensures [C05] never-invalid: errIs(r1, ErrInvalid) ==> pendingErr() == r1
+
+//@ func (*Executor).execMethodType
+//@ props C16
+//@ ensures [C16] object: is[map[string]any](value) ==> callarg[any](exec.executeNextItem, "value") == any("object")
+//@ ensures [C16] array: is[[]any](value) ==> callarg[any](exec.executeNextItem, "value") == any("array")
+//@ ensures [C16] string: is[string](value) ==> callarg[any](exec.executeNextItem, "value") == any("string")
+//@ ensures [C16] number: is[int64](value) || is[float64](value) || is[json.Number](value) ==> callarg[any](exec.executeNextItem, "value") == any("number")
+//@ ensures [C16] boolean: is[bool](value) ==> callarg[any](exec.executeNextItem, "value") == any("boolean")
+//@ ensures [C16] null: value == nil ==> callarg[any](exec.executeNextItem, "value") == any("null")
+//@ ensures [C16] date: is[*types.Date](value) ==> callarg[any](exec.executeNextItem, "value") == any("date")
+//@ ensures [C16] time: is[*types.Time](value) ==> callarg[any](exec.executeNextItem, "value") == any("time without time zone")
+//@ ensures [C16] timetz: is[*types.TimeTZ](value) ==> callarg[any](exec.executeNextItem, "value") == any("time with time zone")
+//@ ensures [C16] timestamp: is[*types.Timestamp](value) ==> callarg[any](exec.executeNextItem, "value") == any("timestamp without time zone")
+//@ ensures [C16] timestamptz: is[*types.TimestampTZ](value) ==> callarg[any](exec.executeNextItem, "value") == any("timestamp with time zone")
+//@ ensures [C16] one-item: !errIs(r1, ErrInvalid) ==> ncalls(exec.executeNextItem) == 1 && callarg[*valueList](exec.executeNextItem, "found") == found && r0 == callret[resultStatus](exec.executeNextItem, 0) && r1 == callret[error](exec.executeNextItem, 1)
+
+//@ func (*Executor).execMethodSize
+//@ props C16
+//@ ensures [C16] array: is[[]any](value) ==> ncalls(exec.executeNextItem) == 1 && callarg[any](exec.executeNextItem, "value") == any(int64(len(as[[]any](value))))
+//@ ensures [C16] lax-one: !is[[]any](value) && (exec.path.IsLax() || exec.ignoreStructuralErrors) ==> ncalls(exec.executeNextItem) == 1 && callarg[any](exec.executeNextItem, "value") == any(int64(1))
+//@ ensures [C16] strict-error: !is[[]any](value) && !exec.path.IsLax() && !exec.ignoreStructuralErrors ==> ncalls(exec.executeNextItem) == 0 && r0 == statusFailed && (r1 == nil || errIs(r1, ErrVerbose))
+
+//@ func (*Executor).execMethodDouble
+//@ props C16 C05
+//@ ensures [C16 C05] finite: ncalls(exec.executeNextItem) == 1 ==> is[float64](callarg[any](exec.executeNextItem, "value")) && !isNaN(as[float64](callarg[any](exec.executeNextItem, "value"))) && !isInf(as[float64](callarg[any](exec.executeNextItem, "value")))
+//@ ensures [C16] float-identity: is[float64](value) && ncalls(exec.executeNextItem) == 1 ==> callarg[any](exec.executeNextItem, "value") == value
+//@ ensures [C16] domain: !(is[[]any](value) || is[int64](value) || is[float64](value) || is[json.Number](value) || is[string](value)) ==> r0 == statusFailed && (r1 == nil || errIs(r1, ErrVerbose)) && ncalls(exec.executeNextItem) == 0
+//@ ensures [C16] array-unwrap: is[[]any](value) && unwrap ==> ncalls(exec.executeItemUnwrapTargetArray) == 1 && ncalls(exec.executeNextItem) == 0
+//@ ensures [C16] array-strict: is[[]any](value) && !unwrap ==> r0 == statusFailed && ncalls(exec.executeNextItem) == 0
+
+//@ func (*Executor).execMethodInteger
+//@ props C16
+//@ mode bv
+//@ ensures [C16] in-int32-range: ncalls(exec.executeNextItem) == 1 ==> is[int64](callarg[any](exec.executeNextItem, "value")) && as[int64](callarg[any](exec.executeNextItem, "value")) >= -2147483648 && as[int64](callarg[any](exec.executeNextItem, "value")) <= 2147483647
+//@ ensures [C16] int-identity: is[int64](value) && ncalls(exec.executeNextItem) == 1 ==> callarg[any](exec.executeNextItem, "value") == value
+//@ ensures [C16] int-out-of-range: is[int64](value) && (as[int64](value) > 2147483647 || as[int64](value) < -2147483648) ==> ncalls(exec.executeNextItem) == 0 && r0 == statusFailed
+//@ ensures [C16] float-rounds-half-away: is[float64](value) && ncalls(exec.executeNextItem) == 1 ==> callarg[any](exec.executeNextItem, "value") == any(f2iTrunc(roundHalfAway(as[float64](value))))
+//@ ensures [C16] float-accepted-in-range: is[float64](value) && !isNaN(as[float64](value)) && roundHalfAway(as[float64](value)) >= -2147483648.0 && roundHalfAway(as[float64](value)) <= 2147483647.0 ==> ncalls(exec.executeNextItem) == 1
+//@ ensures [C16] domain: !(is[[]any](value) || is[int64](value) || is[float64](value) || is[json.Number](value) || is[string](value)) ==> r0 == statusFailed && ncalls(exec.executeNextItem) == 0
+
+//@ func (*Executor).execMethodBigInt
+//@ props C16
+//@ mode bv
+//@ ensures [C16] int-identity: is[int64](value) ==> ncalls(exec.executeNextItem) == 1 && callarg[any](exec.executeNextItem, "value") == value
+//@ ensures [C16] in-int64-range: is[float64](value) && ncalls(exec.executeNextItem) == 1 ==> f2iInRange64(roundHalfAway(as[float64](value))) && callarg[any](exec.executeNextItem, "value") == any(f2iTrunc(roundHalfAway(as[float64](value))))
+//@ ensures [C16] float-out-of-range: is[float64](value) && (isNaN(as[float64](value)) || !f2iInRange64(as[float64](value))) ==> ncalls(exec.executeNextItem) == 0 && r0 == statusFailed && (r1 == nil || errIs(r1, ErrVerbose))
+//@ ensures [C16] result-int: ncalls(exec.executeNextItem) == 1 ==> is[int64](callarg[any](exec.executeNextItem, "value"))
+//@ ensures [C16] domain: !(is[[]any](value) || is[int64](value) || is[float64](value) || is[json.Number](value) || is[string](value)) ==> r0 == statusFailed && ncalls(exec.executeNextItem) == 0
+
+//@ func (*Executor).execMethodBoolean
+//@ props C16
+//@ ensures [C16] bool-identity: is[bool](value) ==> ncalls(exec.executeNextItem) == 1 && callarg[any](exec.executeNextItem, "value") == value
+//@ ensures [C16] int: is[int64](value) ==> ncalls(exec.executeNextItem) == 1 && callarg[any](exec.executeNextItem, "value") == any(as[int64](value) != 0)
+//@ ensures [C16] float-integral: is[float64](value) && as[float64](value) == truncF(as[float64](value)) ==> ncalls(exec.executeNextItem) == 1 && callarg[any](exec.executeNextItem, "value") == any(as[float64](value) != 0)
+//@ ensures [C16] float-fraction: is[float64](value) && as[float64](value) != truncF(as[float64](value)) ==> ncalls(exec.executeNextItem) == 0 && r0 == statusFailed && (r1 == nil || errIs(r1, ErrVerbose))
+//@ ensures [C16] result-bool: ncalls(exec.executeNextItem) == 1 ==> is[bool](callarg[any](exec.executeNextItem, "value"))
+//@ ensures [C16] domain: !(is[[]any](value) || is[bool](value) || is[int64](value) || is[float64](value) || is[json.Number](value) || is[string](value)) ==> r0 == statusFailed && ncalls(exec.executeNextItem) == 0
+
+//@ func execBooleanString
+//@ props C16
+//@ ensures [C16] empty: len(val) == 0 ==> r1 != nil && errIs(r1, ErrVerbose)
+//@ ensures [C16] true-spellings: val == "true" || val == "t" || val == "T" || val == "yes" || val == "y" || val == "Y" || val == "on" || val == "1" ==> r1 == nil && r0
+//@ ensures [C16] false-spellings: val == "false" || val == "f" || val == "F" || val == "no" || val == "n" || val == "N" || val == "off" || val == "0" ==> r1 == nil && !r0
+//@ ensures [C16] rejected: r1 != nil ==> errIs(r1, ErrVerbose) && errIs(r1, ErrExecution) && !r0
+//@ ensures [C16] digits-exact: len(val) > 1 && (val[0] == '1' || val[0] == '0') ==> r1 != nil
+//@ ensures [C16] other-first-byte: len(val) > 0 && !(val[0] == 't' || val[0] == 'T' || val[0] == 'f' || val[0] == 'F' || val[0] == 'y' || val[0] == 'Y' || val[0] == 'n' || val[0] == 'N' || val[0] == 'o' || val[0] == 'O' || val[0] == '1' || val[0] == '0') ==> r1 != nil
+
+//@ func (*Executor).execMethodString
+//@ props C16
+//@ ensures [C16] string-identity: is[string](value) ==> ncalls(exec.executeNextItem) == 1 && callarg[any](exec.executeNextItem, "value") == value
+//@ ensures [C16] bool: is[bool](value) ==> ncalls(exec.executeNextItem) == 1 && callarg[any](exec.executeNextItem, "value") == ite(as[bool](value), any("true"), any("false"))
+//@ ensures [C16] result-string: ncalls(exec.executeNextItem) == 1 ==> is[string](callarg[any](exec.executeNextItem, "value"))
+//@ ensures [C16] domain: value == nil || is[map[string]any](value) ==> r0 == statusFailed && ncalls(exec.executeNextItem) == 0 && (r1 == nil || errIs(r1, ErrVerbose))
+
+//@ func (*Executor).executeNumericItemMethod
+//@ props C16
+//@ requires node != nil
+//@ ensures [C16] int: is[int64](value) ==> ncalls(exec.executeNextItem) == 1 && callarg[any](exec.executeNextItem, "value") == any(dynret[int64](intCallback, 0, as[int64](value)))
+//@ ensures [C16] float: is[float64](value) ==> ncalls(exec.executeNextItem) == 1 && callarg[any](exec.executeNextItem, "value") == any(dynret[float64](floatCallback, 0, as[float64](value)))
+//@ ensures [C16] domain: !(is[[]any](value) || is[int64](value) || is[float64](value) || is[json.Number](value)) ==> r0 == statusFailed && ncalls(exec.executeNextItem) == 0 && (r1 == nil || errIs(r1, ErrVerbose))
+
+//@ func (*Executor).executeDecimalMethod
+//@ props C16 C08
+//@ ensures [C05] class: r1 != nil ==> errIs(r1, ErrExecution) || errIs(r1, ErrInvalid)
+//@ ensures [C16] passthrough: node.Operator() != ast.BinaryDecimal || node.Left() == nil ==> r1 == nil && sameFloat(r0, num)
+//@ ensures [C16 C08] precision-range: node.Operator() == ast.BinaryDecimal && node.Left() != nil && ncalls(getNodeInt32) >= 1 && firstret[error](getNodeInt32, 1) == nil && (firstret[int](getNodeInt32, 0) < 1 || firstret[int](getNodeInt32, 0) > 1000) ==> r1 != nil && errIs(r1, ErrExecution) && !errIs(r1, ErrVerbose)
+//@ ensures [C16 C08] scale-range: ncalls(getNodeInt32) == 2 && callret[error](getNodeInt32, 1) == nil && (callret[int](getNodeInt32, 0) < -1000 || callret[int](getNodeInt32, 0) > 1000) ==> r1 != nil && errIs(r1, ErrExecution) && !errIs(r1, ErrVerbose)
+//@ ensures [C05 C16] local-finite: r1 == nil && !isNaN(num) && !isInf(num) ==> !isNaN(r0) && !isInf(r0)
+
+//@ func getNodeInt32
+//@ props C16 C17
+//@ ensures [C16] integer-node: is[*ast.IntegerNode](node) && as[*ast.IntegerNode](node).Int() >= -2147483648 && as[*ast.IntegerNode](node).Int() <= 2147483647 ==> r1 == nil && int64(r0) == as[*ast.IntegerNode](node).Int()
+//@ ensures [C16] out-of-range: is[*ast.IntegerNode](node) && (as[*ast.IntegerNode](node).Int() < -2147483648 || as[*ast.IntegerNode](node).Int() > 2147483647) ==> r1 != nil && errIs(r1, ErrVerbose)
+//@ ensures [C16] other-node: !is[*ast.IntegerNode](node) ==> r1 != nil && errIs(r1, ErrExecution) && !errIs(r1, ErrVerbose)
+//@ ensures [C05] class: r1 != nil ==> errIs(r1, ErrExecution) && !errIs(r1, ErrInvalid)
+//@ ensures [C16] ok-range: r1 == nil ==> r0 >= -2147483648 && r0 <= 2147483647
+
+//@ func (*Executor).executeNumberMethod
+//@ props C16 C05
+//@ requires node != nil
+//@ ensures [C16] finite-number: ncalls(exec.executeNextItem) == 1 && !is[*ast.BinaryNode](node) ==> is[float64](callarg[any](exec.executeNextItem, "value")) && !isNaN(as[float64](callarg[any](exec.executeNextItem, "value"))) && !isInf(as[float64](callarg[any](exec.executeNextItem, "value")))
+//@ ensures [C16] float-identity: is[float64](value) && !is[*ast.BinaryNode](node) && ncalls(exec.executeNextItem) == 1 ==> callarg[any](exec.executeNextItem, "value") == value
+//@ ensures [C16] domain: !(is[[]any](value) || is[int64](value) || is[float64](value) || is[json.Number](value) || is[string](value)) ==> r0 == statusFailed && ncalls(exec.executeNextItem) == 0 && (r1 == nil || errIs(r1, ErrVerbose))
+//@ ensures [C16 C08] decimal-error: ncalls(exec.executeDecimalMethod) == 1 && callret[error](exec.executeDecimalMethod, 1) != nil ==> r0 == statusFailed && ncalls(exec.executeNextItem) == 0 && (!errIs(callret[error](exec.executeDecimalMethod, 1), ErrVerbose) ==> r1 == callret[error](exec.executeDecimalMethod, 1))
+
+// ---------------------------------------------------------------------------
+// keyvalue.go
+
+//@ func (kvBaseObject).OffsetOf
+//@ props C16 C05
+//@ requires bo.addr <= 9223372036854775807
+//@ ensures [C16] distance: r0 >= 0
+
+//@ func (*Executor).executeKeyValueMethod
+//@ props C16 C09
+//@ requires node != nil
+//@ loop 1 invariant [C20 C05] no-pending: pendingErr() == nil && !pendingFailed()
+//@ loop 1 invariant status: res == statusOK || res == statusNotFound
+//@ loop 1 invariant [C09 C16] base-restore: implies(deferActive("baseObject"), deferObj[*Executor]("baseObject") == exec && deferVal[kvBaseObject]("baseObject") == old(exec.baseObject)) && implies(!deferActive("baseObject"), exec.baseObject == old(exec.baseObject))
+//@ loop 1 invariant [C16] every-member: ncalls(exec.executeNextItem) == loopEntry(ncalls(exec.executeNextItem)) + rangeindex + 1
+//@ atcall executeNextItem assert [C16] triple: arg_found == found && is[map[string]any](arg_value) && as[map[string]any](arg_value)["id"] == any(id) && as[map[string]any](arg_value)["key"] == any(k) && fresh(as[map[string]any](arg_value))
+//@ atcall executeNextItem assert [C16] fresh-base: exec.baseObject.id == exec.lastGeneratedObjectID
+//@ ensures [C16] non-object: !is[map[string]any](value) && !(is[[]any](value) && unwrap) ==> r0 == statusFailed && ncalls(exec.executeNextItem) == 0 && (r1 == nil || errIs(r1, ErrVerbose))
+//@ ensures [C16] empty: is[map[string]any](value) && len(as[map[string]any](value)) == 0 ==> r0 == statusNotFound && r1 == nil && ncalls(exec.executeNextItem) == 0
